@@ -246,6 +246,22 @@ func init() {
 							if dropMarker == "{1520}" {
 								w.InputMessageAccountabilityData = nil
 							}
+							// a preset applied to a file that already holds options changes AllowMissingSenderSupplied only
+							for _, preset := range []string{"in", "out"} {
+								f1 := &wire.File{FEDWireMessage: *w}
+								f1.FEDWireMessage.ValidateOptions = nil
+								f1.SetValidation(&wire.ValidateOpts{SkipMandatoryIMAD: op.SkipMandatoryIMAD, AllowMissingSenderSupplied: op.AllowMissingSenderSupplied})
+								if preset == "in" {
+									wire.IncomingFile()(f1)
+								} else {
+									wire.OutgoingFile()(f1)
+								}
+								f2 := &wire.File{FEDWireMessage: *w}
+								f2.FEDWireMessage.ValidateOptions = nil
+								f2.SetValidation(&wire.ValidateOpts{SkipMandatoryIMAD: op.SkipMandatoryIMAD, AllowMissingSenderSupplied: preset == "in"})
+								a, b := fmt.Sprint(f1.Validate() == nil), fmt.Sprint(f2.Validate() == nil)
+								o.Case("prop:options-routes-agree", sameOr(b, a), tn, dropMarker, preset, optsArg(op), "preset-after-options")
+							}
 							for _, first := range optionSets() {
 								f1 := &wire.File{FEDWireMessage: *w}
 								f1.FEDWireMessage.ValidateOptions = nil
